@@ -6,7 +6,46 @@ import (
 	"github.com/go-gts/gts"
 )
 
-func init() { props["C06"] = propC06 }
+func init() {
+	props["C06"] = propC06
+	// the domain predicate of the Lean round-trip theorem (Gts.Loc.canonP): a fixed point of
+	// Join / Order / Complement() with coordinates 0 <= x <= 2^62
+	extraOps["loc.canonp"] = func(a []sexp) string {
+		l := decLoc(a[0])
+		return b01(isCanonical(l) && coordsOK(l))
+	}
+}
+
+func coordsOK(l gts.Location) bool {
+	ok := func(x int) bool { return 0 <= x && x <= 1<<62 }
+	switch v := l.(type) {
+	case gts.Between:
+		return ok(int(v))
+	case gts.Point:
+		return ok(int(v))
+	case gts.Ranged:
+		return ok(v.Start) && ok(v.End)
+	case gts.Ambiguous:
+		return ok(v.Start) && ok(v.End)
+	case gts.Joined:
+		for _, u := range v {
+			if !coordsOK(u) {
+				return false
+			}
+		}
+		return len(v) >= 2
+	case gts.Ordered:
+		for _, u := range v {
+			if !coordsOK(u) {
+				return false
+			}
+		}
+		return len(v) >= 2
+	case gts.Complemented:
+		return coordsOK(v.Location)
+	}
+	return false
+}
 
 var locAlphabet = []byte("0123456789.^<>,()cjo ")
 
@@ -14,6 +53,7 @@ var locAlphabet = []byte("0123456789.^<>,()cjo ")
 func c06Value(r *Run, l gts.Location) {
 	ls := encLoc(l)
 	r.op("loc.print " + ls)
+	r.op("loc.canonp " + ls)
 	s := l.String()
 	line := "loc.parse " + encStr(s)
 	out := r.op(line)
